@@ -552,6 +552,11 @@ class _World:
         tgt, P = self._target(k, idx, sl)
         scalar = self.rng.random() < 0.2
         v = self.rnd(()) if scalar else self.rnd(P.shape)
+        if self.rng.random() < 0.25:
+            # a value of a narrower type than the signal (a real seed on a complex signal, a single-precision one on a double
+            # signal): the sensitivity of the base signal it lands in has to hold wider contributions later in the history
+            v = np.real(v).copy() if self.cplx else np.asarray(v).astype(np.float32)
+            self.ctx.count("slice_sensitivity_assigned_with_narrower_type")
         op = self._opname("sensitivity-assign", idx)
         self.log(f"{op} s{k} {idx!r} scalar={scalar}")
         tgt.sensitivity = v.copy() if np.ndim(v) else v[()]
